@@ -167,11 +167,11 @@ enum Edge {
     ConvergeTangent,
     Ransac,
 }
-fn make_edge(e: Edge, scale: f64) -> Box<dyn EdgeLocate> {
+fn make_edge(e: Edge, scale: f64, fit_tol: Option<f64>) -> Box<dyn EdgeLocate> {
     match e {
         Edge::Intersect => IntersectEdge::make(),
         Edge::TraceMaxCurv => TraceToMaxCurvature::make(None),
-        Edge::FitRadius => FitRadiusEdge::make(None),
+        Edge::FitRadius => FitRadiusEdge::make(fit_tol),
         Edge::ConstRadius => ConstRadiusEdge::make(None),
         Edge::ConvergeTangent => ConvergeTangentEdge::make(None),
         Edge::Ransac => RansacRadiusEdge::make(2e-3 * scale, 500),
@@ -198,7 +198,7 @@ struct Outcome {
     section: Curve2,
 }
 
-fn analyze(pts: Vec<Point2>, tol: f64, core_tol: f64, orient_dir: Option<Vector2>, le: Edge, te: Edge, face: Option<Vector2>, scale: f64) -> Option<Result<Outcome, String>> {
+fn analyze(pts: Vec<Point2>, tol: f64, core_tol: f64, orient_dir: Option<Vector2>, le: Edge, te: Edge, face: Option<Vector2>, scale: f64, fit_tol: Option<f64>) -> Option<Result<Outcome, String>> {
     with_watchdog(20, move || {
         guarded(move || {
             let section = Curve2::from_points(&pts, tol, true).map_err(|e| e.to_string())?;
@@ -210,7 +210,7 @@ fn analyze(pts: Vec<Point2>, tol: f64, core_tol: f64, orient_dir: Option<Vector2
                 None => FaceOrient::Detect,
                 Some(v) => FaceOrient::UpperDir(v),
             };
-            let geo = AirfoilGeometry::try_analyze(&section, core_tol, orient, make_edge(le, scale), make_edge(te, scale), face).map_err(|e| e.to_string())?;
+            let geo = AirfoilGeometry::try_analyze(&section, core_tol, orient, make_edge(le, scale, fit_tol), make_edge(te, scale, fit_tol), face).map_err(|e| e.to_string())?;
             Ok::<Outcome, String>(Outcome { geo, section })
         })
         .unwrap_or_else(|e| Err(format!("PANIC {e}")))
@@ -430,6 +430,9 @@ fn sections(rng: &mut Rng) {
     let scale = fam.len / 10.0;
     let base = fam.outline();
     let core_tol = *rng.pick(&[1e-3, 1e-4]) * scale;
+    // the circle-fit edge method with its own, looser acceptance tolerance (an option of the method): the stations it
+    // adds while walking into the edge are stations like any other and stay inscribed within the ANALYSIS tolerance
+    let fit_tol = if rng.chance(0.5) { Some(core_tol * *rng.pick(&[30.0, 100.0, 300.0, 1000.0])) } else { None };
     let edges = [Edge::Intersect, Edge::TraceMaxCurv, Edge::FitRadius, Edge::ConstRadius, Edge::ConvergeTangent, Edge::Ransac];
     let le = *rng.pick(&edges);
     let te = *rng.pick(&edges);
@@ -444,7 +447,7 @@ fn sections(rng: &mut Rng) {
         // leading edge towards −T at s = 0: the camber is oriented against +x of the base frame
         let orient = if use_dir { Some(var.iso * Vector2::new(-1.0, 0.0)) } else { None };
         let upper = if face_dir { Some(Vector2::new(0.0, 1.0)) } else { None };
-        let r = analyze(pts, 1e-6 * scale, core_tol, orient, le, te, upper.map(|d| var.iso * d), scale);
+        let r = analyze(pts, 1e-6 * scale, core_tol, orient, le, te, upper.map(|d| var.iso * d), scale, fit_tol);
         match r {
             None => {
                 v.require(false, "airfoil.analysis_terminates", || format!("{tag}: no result within 20 s, family {fam:?} le={le:?} te={te:?}"));
@@ -631,7 +634,7 @@ fn open_sections(rng: &mut Rng) {
         guarded(move || {
             let section = Curve2::from_points(&pts, 1e-6 * scale, false).map_err(|e| e.to_string())?;
             let open: Box<dyn EdgeLocate> = if which == 0 { OpenEdge::make() } else { OpenIntersectGap::make(50) };
-            let closed = make_edge(Edge::Intersect, scale);
+            let closed = make_edge(Edge::Intersect, scale, None);
             let (le, te) = if open_leading { (open, closed) } else { (closed, open) };
             let geo = AirfoilGeometry::try_analyze(&section, core_tol, DirectionFwd::make(Vector2::new(-1.0, 0.0)), le, te, FaceOrient::UpperDir(Vector2::new(0.0, 1.0))).map_err(|e| e.to_string())?;
             Ok::<Outcome, String>(Outcome { geo, section })
@@ -673,6 +676,89 @@ fn open_sections(rng: &mut Rng) {
     emit_oracle_only("airfoil.open", &Tok::new(), &Tok::new(), &v);
 }
 
+/// A blade whose nose is NOT an arc of constant radius (the inscribed radius grows like that of a parabola,
+/// `rn·sqrt(1 + g·s/rn)`, tapering to the trailing edge), at the scale of a large blade (chord 10 … 1000) with an analysis
+/// tolerance of 1e-6 chord, the leading edge located by the circle-fit method with its own looser acceptance tolerance:
+/// the method then walks into the nose adding stations, and those are stations like any other — inscribed within
+/// the analysis tolerance.  Only that clause is judged here (direction of the camber given, trailing edge by intersection).
+fn sqrt_nose(rng: &mut Rng) {
+    let scale = *rng.pick(&[1.0, 10.0, 100.0]);
+    let len = 10.0 * scale;
+    let rn = rng.range(0.1, 0.2) * scale;
+    let g = rng.range(1.2, 1.9); // dr/ds at the nose is g/2 < 1
+    let taper = rng.range(0.85, 0.95);
+    let kappa = rng.range(0.01, 0.08) / scale;
+    let (n, ncap) = (*rng.pick(&[400usize, 600]), rng.int(30, 50) as usize);
+    let r = move |s: f64| rn * (1.0 + g * s / rn).sqrt() * (1.0 - taper * (s / len).powf(1.5));
+    let frame = |s: f64| -> (Point2, Vector2, Vector2) {
+        let th = s * kappa;
+        (Point2::new(th.sin() / kappa, (th.cos() - 1.0) / kappa), Vector2::new(th.cos(), -th.sin()), Vector2::new(th.sin(), th.cos()))
+    };
+    let h = 1e-6 * len;
+    let dr = |s: f64| -> f64 { let (a, b) = ((s - h).max(0.0), (s + h).min(len)); (r(b) - r(a)) / (b - a) };
+    let mut pts = Vec::new();
+    for i in 0..=n {
+        let s = len * i as f64 / n as f64;
+        let (p, t, nn) = frame(s);
+        let d = dr(s);
+        pts.push(p + (t * (-d) + nn * (1.0 - d * d).sqrt()) * r(s));
+    }
+    {
+        let (p, t, nn) = frame(len);
+        let d = dr(len);
+        let a0 = (1.0 - d * d).sqrt().atan2(-d);
+        for i in 1..ncap {
+            let a = a0 * (1.0 - 2.0 * i as f64 / ncap as f64);
+            pts.push(p + (t * a.cos() + nn * a.sin()) * r(len));
+        }
+    }
+    for i in (0..=n).rev() {
+        let s = len * i as f64 / n as f64;
+        let (p, t, nn) = frame(s);
+        let d = dr(s);
+        pts.push(p + (t * (-d) - nn * (1.0 - d * d).sqrt()) * r(s));
+    }
+    {
+        let (p, t, nn) = frame(0.0);
+        let d = dr(0.0);
+        let a0 = (1.0 - d * d).sqrt().atan2(-d);
+        for i in 1..ncap {
+            let a = -a0 - (2.0 * std::f64::consts::PI - 2.0 * a0) * i as f64 / ncap as f64;
+            pts.push(p + (t * a.cos() + nn * a.sin()) * r(0.0));
+        }
+    }
+    if pts.iter().any(|p| !(p.x.is_finite() && p.y.is_finite())) {
+        return;
+    }
+    let iso = Iso2::new(Vector2::new(rng.range(-50.0, 50.0), rng.range(-50.0, 50.0)) * scale, rng.range(-3.1, 3.1));
+    let mut pts: Vec<Point2> = pts.iter().map(|p| iso * p).collect();
+    if rng.chance(0.5) {
+        pts.reverse();
+    }
+    let core_tol = 1e-5 * scale;
+    let fit_tol = Some(core_tol * *rng.pick(&[100.0, 300.0, 1000.0, 2000.0]));
+    let mut v = Verdict::new();
+    match analyze(pts, 1e-8 * scale, core_tol, Some(iso * Vector2::new(-1.0, 0.0)), Edge::FitRadius, Edge::Intersect, None, scale, fit_tol) {
+        None => v.require(false, "airfoil.analysis_terminates", || format!("parabolic nose at scale {scale}: no result within 20 s")),
+        Some(Err(e)) => { if std::env::var("VH_TRACE").is_ok() { eprintln!("sqrt_nose declined: {e}"); } v.require(!e.starts_with("PANIC"), "airfoil.analysis_does_not_panic", || format!("parabolic nose at scale {scale}: {e}")) }
+        Some(Ok(out)) => {
+            let (mut centre, mut contact, mut off): (f64, f64, f64) = (0.0, 0.0, 0.0);
+            for s in &out.geo.stations {
+                centre = centre.max((out.section.dist_to_point(&s.center()) - s.radius()).abs());
+                for q in [&s.contact_pos, &s.contact_neg] {
+                    contact = contact.max(((q - s.center()).norm() - s.radius()).abs());
+                    off = off.max(out.section.dist_to_point(q));
+                }
+            }
+            let what = format!("parabolic nose, scale {scale}, analysis tolerance {core_tol:e}, circle-fit tolerance {fit_tol:?}, {} stations", out.geo.stations.len());
+            v.require(centre <= 2.0 * core_tol, "airfoil.station_is_inscribed_circle_with_loose_edge_fit", || format!("{what}: |dist(centre, section) - r| = {centre:e}"));
+            v.require(contact <= 2.0 * core_tol, "airfoil.contacts_one_radius_from_centre_with_loose_edge_fit", || format!("{what}: {contact:e}"));
+            v.require(off <= 1e-9 * scale * 100.0, "airfoil.contacts_on_section_with_loose_edge_fit", || format!("{what}: {off:e}"));
+        }
+    }
+    emit_oracle_only("airfoil.sqrt_nose", &Tok::new(), &Tok::new(), &v);
+}
+
 pub fn run(rng: &mut Rng, n: usize, thorough: bool) {
     let mut k = 0;
     while k < n {
@@ -685,8 +771,12 @@ pub fn run(rng: &mut Rng, n: usize, thorough: bool) {
                 case("airfoil.case", "c10.library_call_panics", || bisect(rng));
                 k += 2
             }
-            14 | 15 => {
+            14 => {
                 case("airfoil.case", "c10.library_call_panics", || open_sections(rng));
+                k += 10
+            }
+            15 => {
+                case("airfoil.case", "c10.library_call_panics", || sqrt_nose(rng));
                 k += 10
             }
             _ => {
@@ -703,7 +793,7 @@ pub fn probe() {
     let pts = fam.outline();
     for (le, te) in [(Edge::TraceMaxCurv, Edge::ConvergeTangent), (Edge::Intersect, Edge::Intersect), (Edge::TraceMaxCurv, Edge::Intersect), (Edge::Intersect, Edge::ConvergeTangent)] {
         for orient in [None, Some(Vector2::new(-1.0, 0.0))] {
-            let r = analyze(pts.clone(), 1e-6, 1e-4, orient, le, te, None, 1.0);
+            let r = analyze(pts.clone(), 1e-6, 1e-4, orient, le, te, None, 1.0, None);
             match r {
                 Some(Ok(o)) => {
                     let st = &o.geo.stations;
